@@ -97,15 +97,23 @@ impl Grapheme {''')
     b.trusted += ['std: char::is_ascii, Range/RangeInclusive<char>::contains, escape_unicode rendering, encode_utf16 (uninterpreted)']
     return b
 
-# ---------------------------------------------------------------- caseconv, sortcmp, display, repfilter, clustersplit
-def build_misc(repo, spec_dir, canary=False):
-    b = Builder('misc', repo, canary)
+# ---------------------------------------------------------------- small units built from slices (one Verus file each, so that a
+# construct outside the dialect in one slice does not make the others undecided)
+def _start(name, repo, canary):
+    b = Builder(name, repo, canary)
     b.emit('use vstd::prelude::*;\nuse std::cmp::Ordering;\nverus! {')
     b.emit(HELPERS)
-    b.emit(r'''
+    return b
+
+def build_caseconv(repo, spec_dir, canary=False):
+    """C01/C04: lower-casing of a test case only when the code-point count is preserved"""
+    b = _start('caseconv', repo, canary)
+    b.emit(r"""
 pub uninterp spec fn lower(s: Seq<char>) -> Seq<char>;
 pub assume_specification [str::to_lowercase] (s: &str) -> (r: String) ensures r@ == lower(s@);
-''')
+pub uninterp spec fn byte_len(s: Seq<char>) -> nat;     // UTF-8 length: NOT the number of code points
+pub assume_specification [String::len] (s: &String) -> (r: usize) ensures r == byte_len(s@);
+""")
     rx = b.src('regexp.rs')
     f, _, _ = X.fn(rx, 'convert_for_case_insensitive_matching')
     body, _, _ = X.block_after(f, '.map(|it| ')
@@ -115,50 +123,26 @@ pub assume_specification [str::to_lowercase] (s: &str) -> (r: String) ensures r@
                         Clause('caseconv.lowered', 'lower(it@).len() == it@.len() ==> r@ == lower(it@)', ['C04'])],
                extra_rules=[('R4', r'\bit\.to_string\(\)', 'vx_string_clone(it)', '&String -> String copy'),
                             ('R5b', r'vx_char_count\(&it\)', 'vx_char_count(it)', '')])
-    # display prefix slices
-    b.type_item('config.rs', r'^pub struct RegExpConfig \{')
-    b.type_item('quantifier.rs', r'^pub enum Quantifier \{')
-    b.type_item('component.rs', r'^pub\(crate\) enum Component \{')
-    disp, _, _ = X.item(rx, r"^impl Display for RegExp<'_> \{")
-    stm = '\n        '.join(X.let_stmt(disp, v)[0] for v in ['flag', 'caret', 'dollar_sign'])
-    b.emit(r'''
-pub struct RegExpView<'a> { pub config: &'a RegExpConfig }
-pub uninterp spec fn repr(c: Component, colored: bool) -> Seq<char>;
-impl Component {
-    #[verifier::external_body]
-    pub fn to_repr(&self, is_output_colorized: bool) -> (r: String) ensures r@ == repr(*self, is_output_colorized), r@.len() > 0 { unimplemented!() }
-}
-impl<'a> RegExpView<'a> {''')
-    cfg = 'self.config.'
-    b.slice_fn('display_prefix', 'pub fn display_prefix(&self) -> (r: (String, String, String))', '        ' + stm, 'regexp.rs::Display for RegExp let flag/caret/dollar_sign',
-               props=['C07'], epilogue='        (flag, caret, dollar_sign)', clauses=[
-        Clause('display.flag', 'r.0@ == (if %sis_case_insensitive_matching && %sis_verbose_mode_enabled { repr(Component::IgnoreCaseAndVerboseModeFlag, %sis_output_colorized) } else if %sis_case_insensitive_matching { repr(Component::IgnoreCaseFlag, %sis_output_colorized) } else if %sis_verbose_mode_enabled { repr(Component::VerboseModeFlag, %sis_output_colorized) } else { Seq::<char>::empty() })' % ((cfg,) * 7), ['C04']),
-        Clause('display.caret', '(r.1@.len() == 0) == %sis_start_anchor_disabled && (!%sis_start_anchor_disabled ==> r.1@ == repr(Component::Caret(%sis_verbose_mode_enabled), %sis_output_colorized))' % ((cfg,) * 4), ['C08']),
-        Clause('display.dollar', '(r.2@.len() == 0) == %sis_end_anchor_disabled && (!%sis_end_anchor_disabled ==> r.2@ == repr(Component::DollarSign(%sis_verbose_mode_enabled), %sis_output_colorized))' % ((cfg,) * 4), ['C08'])])
-    b.emit('}')
-    # cluster split rule (C07, C01)
+    b.emit('} // verus!\nfn main() {}')
+    b.trusted += ['closure plumbing dropped: iter().map(closure).collect_vec() applies the closure per element, in order',
+                  'std: str::to_lowercase (uninterpreted `lower`), chars().count() = number of scalar values, String::len = UTF-8 length (uninterpreted)']
+    return b
+
+def build_split(repo, spec_dir, canary=False):
+    """C07/C01: every multi-code-point grapheme cluster containing a backslash is split; a lone backslash is doubled"""
+    b = _start('split', repo, canary)
     cl = b.src('cluster.rs')
     st, _, _ = X.let_stmt(cl, 'contains_backslash')
     b.emit('pub open spec fn must_split_for_backslash(it: Seq<char>) -> bool { it.len() >= 2 && it.contains(\'\\\\\') }')
     b.slice_fn('split_rule', 'pub fn split_rule(it: &str) -> (contains_backslash: bool)', '    ' + st, 'cluster.rs::GraphemeCluster::from let contains_backslash', props=['C07'],
                epilogue='    contains_backslash', clauses=[Clause('cluster_split.rule', 'must_split_for_backslash(it@) ==> contains_backslash', ['C07', 'C01'])],
                extra_rules=[('R5b', r'vx_char_count\(&it\)', 'vx_char_count(it)', '')])
-    # repetition filter (C13)
-    f, _, _ = X.fn(cl, 'create_ranges_of_repetitions')
-    body, _, _ = X.block_after(f, '.filter(|range| ')
-    b.emit('pub struct ConfigView { pub minimum_repetitions: u32 }')
-    b.slice_fn('rep_filter', 'pub fn rep_filter(range: &core::ops::Range<usize>, prefix_length: usize, config: &ConfigView) -> (r: bool)', body[1:-1],
-               'cluster.rs::create_ranges_of_repetitions filter closure', props=['C07'],
-               requires=['range.start <= range.end', 'prefix_length > 0', '(range.end - range.start) / (prefix_length as int) <= u32::MAX'],
-               clauses=[Clause('rep_filter.strict', 'r == (((range.end - range.start) / (prefix_length as int)) > config.minimum_repetitions)', ['C13'])])
-    # ---- C07 (ii): the branch condition of GraphemeCluster::from sends every cluster that must be split into the split branch
     gf, _, _ = X.fn(cl, 'from', within="^impl<'a> GraphemeCluster<'a> \\{")
-    cond, _, _ = X.if_condition(gf, 'if contains_backslash ||')
+    cond, _, _ = X.if_condition(gf, 'if contains_backslash')
     b.slice_fn('split_branch', 'pub fn split_branch(contains_backslash: bool, contains_combining_mark_or_unassigned_chars: bool) -> (r: bool)', '    ' + cond,
                'cluster.rs::GraphemeCluster::from condition of the split branch', props=['C07'],
                clauses=[Clause('cluster_split.branch', 'contains_backslash ==> r', ['C07', 'C01']),
                         Clause('cluster_split.branch_marks', 'contains_combining_mark_or_unassigned_chars ==> r', ['C07', 'C01'])])
-    # ---- C07 (iii): a grapheme that is a lone backslash is doubled by the escaper
     gr = b.src('grapheme.rs')
     ef, _, _ = X.fn(gr, 'escape_regexp_symbols')
     st, _, _ = X.if_stmt(ef, 'if character == "\\\\"')
@@ -168,7 +152,23 @@ impl<'a> RegExpView<'a> {''')
                         Clause('cluster_split.others_untouched', 'character0@ != "\\\\"@ ==> character@ == character0@', ['C07', 'C01'])],
                extra_rules=[('R12', r'\bcharacter == ("(?:[^"\\]|\\.)*")', r'vx_string_eq_lit(&character, \1)', 'PartialEq<str> for String'),
                             ('R4', r'("(?:[^"\\]|\\.)*")\.to_string\(\)', r'vx_str_to_string(\1)', '&str -> String copy')])
-    # ---- C13 (b): Grapheme::from never creates a quantified grapheme; repetition conversion is gated by the option
+    b.emit('} // verus!\nfn main() {}')
+    b.trusted += ['the split branch maps every code point of the cluster to its own grapheme (closure plumbing dropped by the slice)',
+                  'std: chars().count(), str::contains/ends_with/starts_with(char), String == str']
+    return b
+
+def build_rep(repo, spec_dir, canary=False):
+    """C13: thresholds (strict count filter, substring-length guard), no quantifier without the option"""
+    b = _start('rep', repo, canary)
+    b.type_item('config.rs', r'^pub struct RegExpConfig \{')
+    cl, rx = b.src('cluster.rs'), b.src('regexp.rs')
+    f, _, _ = X.fn(cl, 'create_ranges_of_repetitions')
+    body, _, _ = X.block_after(f, '.filter(|range| ')
+    b.emit('pub struct ConfigView { pub minimum_repetitions: u32 }')
+    b.slice_fn('rep_filter', 'pub fn rep_filter(range: &core::ops::Range<usize>, prefix_length: usize, config: &ConfigView) -> (r: bool)', body[1:-1],
+               'cluster.rs::create_ranges_of_repetitions filter closure', props=['C07'],
+               requires=['range.start <= range.end', 'prefix_length > 0', '(range.end - range.start) / (prefix_length as int) <= u32::MAX'],
+               clauses=[Clause('rep_filter.strict', 'r == (((range.end - range.start) / (prefix_length as int)) > config.minimum_repetitions)', ['C13'])])
     b.type_item('grapheme.rs', r'^pub struct Grapheme \{')
     b.emit('impl Grapheme {')
     b.verified_fn('grapheme.rs', 'from', within=r'^impl Grapheme \{', props=['C07'], fname='Grapheme::from',
@@ -177,24 +177,44 @@ impl<'a> RegExpView<'a> {''')
                   extra_rules=[('R4', r'\bs\.to_string\(\)', 'vx_str_to_string(s)', '&str -> String copy')])
     b.emit('}')
     gcf, _, _ = X.fn(rx, 'grapheme_clusters')
-    cond, _, _ = X.if_condition(gcf, 'if config.is_repetition_converted')
+    # the `if` that guards the loop calling convert_repetitions
+    k = gcf.find('cluster.convert_repetitions()')
+    if k < 0: raise X.LostAnchor('regexp.rs::grapheme_clusters call of convert_repetitions')
+    i0 = gcf.rfind('\n        if ', 0, k)
+    if i0 < 0: raise X.LostAnchor('regexp.rs::grapheme_clusters guard of convert_repetitions')
+    cond, _, _ = X.if_condition(gcf[i0 + 1:], 'if ')
     b.slice_fn('rep_gate', 'pub fn rep_gate(config: &RegExpConfig) -> (r: bool)', '    ' + cond, 'regexp.rs::grapheme_clusters condition guarding convert_repetitions', props=['C07'],
                clauses=[Clause('rep_gate.only_on_request', 'r == config.is_repetition_converted', ['C13'])])
-    b.emit('impl RegExpConfig {')
-    b.verified_fn('config.rs', 'is_char_class_feature_enabled', within=r'^impl RegExpConfig \{', props=['C07'], fname='RegExpConfig::is_char_class_feature_enabled',
-                  clauses=[Clause('class_gate.enabled_when_requested', '(self.is_digit_converted || self.is_non_digit_converted || self.is_space_converted || self.is_non_space_converted || self.is_word_converted || self.is_non_word_converted) ==> r', ['C03'])])
-    b.emit('}')
-    cond2, _, _ = X.if_condition(gcf, 'if config.is_char_class_feature_enabled()')
-    b.slice_fn('class_gate', 'pub fn class_gate(config: &RegExpConfig) -> (r: bool)', '    ' + cond2, 'regexp.rs::grapheme_clusters condition guarding convert_to_char_classes', props=['C07'],
-               clauses=[Clause('class_gate.calls_conversion', '(config.is_digit_converted || config.is_non_digit_converted || config.is_space_converted || config.is_non_space_converted || config.is_word_converted || config.is_non_word_converted) ==> r', ['C03'])])
-    # ---- C13 (c): the guard that skips units shorter than the minimum substring length is the strict comparison
     rf, _, _ = X.fn(cl, 'replace_graphemes_with_repetitions')
-    cond3, _, _ = X.if_condition(rf, 'if substr.len() <')
-    b.slice_fn('substr_guard', 'pub fn substr_guard(substr: &Vec<String>, config: &RegExpConfig) -> (skip: bool)', '    ' + cond3,
+    # the guard of the `continue` in the splice loop (anchored structurally: the if-statement whose block is just `continue;`)
+    import re as _re
+    m = _re.search(r'\n([ \t]*)if ([^{}]+?) \{\s*continue;\s*\}', rf)
+    if not m: raise X.LostAnchor('cluster.rs::replace_graphemes_with_repetitions guard of continue')
+    b.slice_fn('substr_guard', 'pub fn substr_guard(substr: &Vec<String>, config: &RegExpConfig) -> (skip: bool)', '    ' + m.group(2).strip(),
                'cluster.rs::replace_graphemes_with_repetitions guard of `continue`', props=['C07'],
                clauses=[Clause('substr_guard.strict', 'skip == (substr@.len() < config.minimum_substring_length)', ['C13'])])
     b.emit('} // verus!\nfn main() {}')
-    b.trusted += ['closure plumbing dropped for caseconv / rep_filter (iter().map / filter apply the closure per element)',
-                  'Component::to_repr renders the named component and is never empty',
-                  'std: str::to_lowercase (uninterpreted), chars().count(), str::contains(char)']
+    b.trusted += ['closure plumbing dropped for rep_filter (filter applies the closure per element); that the guarded `continue` skips the splice is not decided here']
+    return b
+
+def build_gates(repo, spec_dir, canary=False):
+    """C03: class conversion runs whenever one of the six conversion options is set"""
+    b = _start('gates', repo, canary)
+    b.type_item('config.rs', r'^pub struct RegExpConfig \{')
+    rx = b.src('regexp.rs')
+    six = '(%s.is_digit_converted || %s.is_non_digit_converted || %s.is_space_converted || %s.is_non_space_converted || %s.is_word_converted || %s.is_non_word_converted)'
+    b.emit('impl RegExpConfig {')
+    b.verified_fn('config.rs', 'is_char_class_feature_enabled', within=r'^impl RegExpConfig \{', props=['C07'], fname='RegExpConfig::is_char_class_feature_enabled',
+                  clauses=[Clause('class_gate.enabled_when_requested', (six % (('self',) * 6)) + ' ==> r', ['C03'])])
+    b.verified_fn('config.rs', 'new', within=r'^impl RegExpConfig \{', props=['C07'], fname='RegExpConfig::new',
+                  clauses=[Clause('config.defaults', 'r.minimum_repetitions == 1 && r.minimum_substring_length == 1 && !r.is_digit_converted && !r.is_non_digit_converted && !r.is_space_converted && !r.is_non_space_converted && !r.is_word_converted && !r.is_non_word_converted && !r.is_repetition_converted && !r.is_case_insensitive_matching && !r.is_capturing_group_enabled && !r.is_non_ascii_char_escaped && !r.is_astral_code_point_converted_to_surrogate && !r.is_verbose_mode_enabled && !r.is_start_anchor_disabled && !r.is_end_anchor_disabled && !r.is_output_colorized', ['C02', 'C10', 'C12'])])
+    b.emit('}')
+    gcf, _, _ = X.fn(rx, 'grapheme_clusters')
+    k = gcf.find('cluster.convert_to_char_classes()')
+    if k < 0: raise X.LostAnchor('regexp.rs::grapheme_clusters call of convert_to_char_classes')
+    i0 = gcf.rfind('\n        if ', 0, k)
+    cond2, _, _ = X.if_condition(gcf[i0 + 1:], 'if ')
+    b.slice_fn('class_gate', 'pub fn class_gate(config: &RegExpConfig) -> (r: bool)', '    ' + cond2, 'regexp.rs::grapheme_clusters condition guarding convert_to_char_classes', props=['C07'],
+               clauses=[Clause('class_gate.calls_conversion', (six % (('config',) * 6)) + ' ==> r', ['C03'])])
+    b.emit('} // verus!\nfn main() {}')
     return b
